@@ -166,6 +166,23 @@ class Explorer:
         self.decided[key] = d
         return d
 
+    def unique_value(self, term):
+        """concrete value of an Int term when the path condition forces a single one (sound concretisation), else None"""
+        s = self._inc_solver()
+        s.push()
+        try:
+            if str(s.check()) != 'sat':
+                return None
+            v = s.model().eval(term, model_completion=True)
+            if not z3.is_int_value(v):
+                return None
+            s.add(term != v)
+            if str(s.check()) == 'unsat':
+                return v.as_long()
+            return None
+        finally:
+            s.pop()
+
     # -- final queries ---------------------------------------------------------------
     def solve(self, formulas, cap_s=60, want_model=True, extra_terms=None, eval_named=None):
         """check sat of pc + formulas in a forked child under a hard wall-clock cap.
